@@ -6,7 +6,6 @@
 package ecdsa
 
 import (
-	"bytes"
 	goecdsa "crypto/ecdsa"
 	"crypto/elliptic"
 	"crypto/rand"
@@ -57,10 +56,10 @@ func KeyToPrivate(k key.Key) (*goecdsa.PrivateKey, error) {
 	privKey.D = new(big.Int).SetBytes(d)
 	privKey.PublicKey.X, privKey.PublicKey.Y = curve.ScalarBaseMult(d)
 
-	if x, _ := k.GetBytes(iana.EC2KeyParameterX); x != nil && !bytes.Equal(privKey.PublicKey.X.Bytes(), x) {
+	if x, _ := k.GetBytes(iana.EC2KeyParameterX); x != nil && privKey.PublicKey.X.Cmp(new(big.Int).SetBytes(x)) != 0 {
 		return nil, fmt.Errorf("cose/key/ecdsa: KeyToPrivate: parameter x mismatch")
 	}
-	if y, _ := k.GetBytes(iana.EC2KeyParameterY); y != nil && !bytes.Equal(privKey.PublicKey.Y.Bytes(), y) {
+	if y, _ := k.GetBytes(iana.EC2KeyParameterY); y != nil && privKey.PublicKey.Y.Cmp(new(big.Int).SetBytes(y)) != 0 {
 		return nil, fmt.Errorf("cose/key/ecdsa: KeyToPrivate: parameter y mismatch")
 	}
 	return privKey, nil
@@ -289,12 +288,12 @@ func ToPublicKey(k key.Key) (key.Key, error) {
 
 	if k.Has(iana.EC2KeyParameterX) {
 		x2, _ := k.GetBytes(iana.EC2KeyParameterX)
-		if !bytes.Equal(x, x2) {
+		if ix.Cmp(new(big.Int).SetBytes(x2)) != 0 {
 			return nil, fmt.Errorf(`cose/key/ecdsa: ToPublicKey: parameter x mismatch`)
 		}
 
 		y2, err := k.GetBytes(iana.EC2KeyParameterY)
-		if err == nil && !bytes.Equal(y, y2) {
+		if err == nil && iy.Cmp(new(big.Int).SetBytes(y2)) != 0 {
 			return nil, fmt.Errorf(`cose/key/ecdsa: ToPublicKey: parameter y mismatch`)
 		}
 	}
